@@ -18,10 +18,10 @@ HEADER = ('Require Import PonyV.Base.PyBase PonyV.Model.C01Expr PonyV.Model.C01S
 PROVIDERS = ('sqlite', 'postgres', 'mysql', 'oracle')
 
 
-def run_bools(ctx, exprs, chunk=500, name='cases', prelude='', jobs=8):
+def run_bools(ctx, exprs, chunk=500, name='cases', prelude='', jobs=8, header=None):
     """exprs: list of Coq bool terms. Returns the list of indexes whose value is not true."""
     chunks = []
-    header = HEADER + prelude
+    header = (HEADER if header is None else header) + prelude
     for i in range(0, len(exprs), chunk):
         part = exprs[i:i + chunk]
         chunks.append('Definition cases : list bool := [\n' + ';\n'.join(part) + '].\nEval vm_compute in (failing cases).\n')
